@@ -134,7 +134,12 @@ func init() {
 				}
 			}
 			if !firstHit {
-				r.Note("LevelList.Get is not a first-hit loop; direction of AllTablesForKey is irrelevant")
+				// accepted alternative: consult every candidate table and keep the entry with
+				// the highest sequence number
+				r.Note("LevelList.Get is not a first-hit loop; checking that it keeps the entry with the highest sequence number")
+				for _, l := range gl {
+					r.checkKeepsHighestSeq(get, l)
+				}
 				return
 			}
 			// level-0 expression: ll.At(0)... or ll.levels[0]...
@@ -481,6 +486,56 @@ func init() {
 				}
 			}
 		}})
+}
+
+// checkKeepsHighestSeq: a scan-all lookup loop must replace its running result only by an
+// entry with a strictly higher sequence number (or when there is none yet), and the
+// function must return that running result.
+func (r *Run) checkKeepsHighestSeq(f *prog.FuncInfo, l loopInfo) {
+	info := f.Pkg.TypesInfo
+	seqNum := r.P.FuncObj("dkv/kv", "Entry.SeqNum")
+	var best types.Object
+	var guard *ast.IfStmt
+	var cand ast.Expr
+	ast.Inspect(l.Body, func(nd ast.Node) bool {
+		is, ok := nd.(*ast.IfStmt)
+		if !ok {
+			return true
+		}
+		for _, st := range is.Body.List {
+			as, ok := st.(*ast.AssignStmt)
+			if !ok || as.Tok != token.ASSIGN || len(as.Lhs) != 1 || len(as.Rhs) != 1 {
+				continue
+			}
+			obj := prog.IdentObj(info, as.Lhs[0])
+			if obj == nil || !r.exprCalls(info, is.Cond, seqNum) {
+				continue
+			}
+			best, guard, cand = obj, is, as.Rhs[0]
+		}
+		return true
+	})
+	if best == nil {
+		r.Fail(f.Name()+":keep-highest-seq", l.Pos, nil, "the lookup loop neither stops at the first hit nor keeps the entry with the highest sequence number")
+		return
+	}
+	bn, cn := best.Name(), types.ExprString(cand)
+	names := map[string]string{cn + ".SeqNum()": "cand", bn + ".SeqNum()": "best", bn + " == nil": "?none", bn + " != nil": "?some"}
+	r.orderDomExpr(info, guard.Cond, f.Name()+":keep-highest-seq", names,
+		func(e odEnv) bool { return e.Rank["cand"] != e.Rank["best"] && e.Bool["?none"] != e.Bool["?some"] },
+		func(e odEnv) orderdom.Value { return orderdom.Bool(e.Bool["?none"] || e.Rank["cand"] > e.Rank["best"]) },
+		"no result yet || candidate.SeqNum() > best.SeqNum()")
+	// the running result is what the function returns after the loop
+	returned := false
+	ast.Inspect(f.Decl.Body, func(nd ast.Node) bool {
+		if ret, ok := nd.(*ast.ReturnStmt); ok && ret.Pos() > l.Stmt.End() && len(ret.Results) > 0 && prog.IdentObj(info, ret.Results[0]) == best {
+			returned = true
+		}
+		return true
+	})
+	if !returned {
+		r.Fail(f.Name()+":return-best", l.Pos, nil, "the entry with the highest sequence number is computed but not returned")
+	}
 }
 
 // exprCallsShallow is exprCalls that does not descend into nested function literals.
